@@ -4,9 +4,8 @@
 // Abstract state of one thread: sigma = stack of live scopes of THIS thread, G = unset | set(g).
 //   resolve(sigma, G) = top(sigma), else g, else the no-op collector.
 // Representation invariant I2'' (inductive; every operation is started from an ARBITRARY state satisfying it):
-//   default = None
-//   | default = Some(top sigma)              when sigma is non-empty
-//   | default = Some(g)  and G = set(g)      when sigma is empty   (a cached global is only allowed if it IS the global)
+//   sigma non-empty:  default = Some(top sigma)
+//   sigma empty:      default = None  |  default = Some(g) and G = set(g)   (a cached global is only allowed if it IS the global)
 //   and SCOPED_COUNT >= |sigma| (other threads' scopes make it larger: it is symbolic).
 use vstub::Stub;
 
@@ -38,7 +37,7 @@ fn resolves_to(p: &Pre, d: &Dispatch) -> bool {
 fn inv_holds(p: &Pre) -> bool {
     CURRENT_STATE.with(|s| {
         let ok_default = match &*s.default.borrow() {
-            None => true,
+            None => !p.scoped,
             Some(d) => if p.scoped { same(d, &p.d1) } else { p.g_set && same(d, &p.g) },
         };
         ok_default && s.can_enter.get() && SCOPED_COUNT.load(Ordering::SeqCst) == p.count0
